@@ -857,8 +857,22 @@ class EntryGraph:
         v = env.get((cid, pl['l']))
         if not proj:
             return v
-        if proj == ['*'] and v is not None and v[0] == 'ref':
-            return env.get(v[1])
+        i = 0
+        if proj[0] == '*':
+            if v is not None and v[0] == 'ref':
+                v = env.get(v[1])
+                i = 1
+            else:
+                return None
+        rest = proj[i:]
+        if not rest:
+            return v
+        # (enum as Variant).field : payload of a tracked variant
+        if len(rest) == 2 and isinstance(rest[0], dict) and 'v' in rest[0] and isinstance(rest[1], dict) and 'f' in rest[1]:
+            if v is not None and v[0] == 't' and len(v) > 2 and v[3] == rest[0]['v']:
+                pay = v[2]
+                if rest[1]['f'] < len(pay):
+                    return pay[rest[1]['f']]
         return None
 
     def _target_place(self, env, cid, pl):
@@ -893,6 +907,9 @@ class EntryGraph:
                 return ('atom', v[1], not v[2])
             return None
         if k == 'agg' and rv['kind'] == 'adt' and rv.get('is_enum'):
+            pay = tuple(self._payload_val(self._val_op(env, cid, o)) for o in rv['ops'])
+            if any(x is not None for x in pay):
+                return ('t', self.crate.discr_of(rv['adt'], rv['vidx']), pay, rv['vidx'])
             return ('t', self.crate.discr_of(rv['adt'], rv['vidx']))
         if k == 'discr':
             tgt = self._target_place(env, cid, rv['pl'])
@@ -923,6 +940,13 @@ class EntryGraph:
                 if v is not None and v[0] == 'ref':
                     return v
             return None
+        return None
+
+    @staticmethod
+    def _payload_val(v):
+        """abstract values that may be stored inside a tracked variant (no references to frames)"""
+        if v is not None and v[0] in ('b', 't'):
+            return v
         return None
 
     def _nvariants(self, ty):
